@@ -39,8 +39,24 @@ func genC01(r *rng, tier string, add func(g *G)) {
 			g.keys = append(g.collidingKeys(70, 8, "e"), g.randomKeys(20)...)
 		}
 		ops := scale(tier, 120, 500) + g.r.intn(100)
+		if i%8 == 4 {
+			// Directed: a chain that is still longer than two full buckets when its bucket is split
+			// (the slot writer of index.split then links more than one new overflow bucket): 100+ keys
+			// equal in the low 12 hash bits, all live at the same time.
+			g.keys = g.collidingKeys(100+g.r.intn(40), 12, "L")
+			for j, k := range g.keys {
+				g.put(k, g.value())
+				if j >= 60 && j%9 == 0 {
+					g.get(g.keys[g.r.intn(j)])
+					g.count()
+				}
+			}
+			g.checkAll()
+			g.c.tag("directed_long_chain_split")
+			ops = 40
+		}
 		// Directed prefix: fill a chain past one bucket, open a hole early in it, re-put a late key.
-		if i%4 != 2 && len(g.keys) >= 34 {
+		if i%4 != 2 && i%8 != 4 && len(g.keys) >= 34 {
 			for _, k := range g.keys[:34] {
 				g.put(k, g.value())
 			}
@@ -268,13 +284,19 @@ func genCrash(prop string, epochsMax int) genFunc {
 					g.open()
 				}
 				var before, after map[string][]byte
-				if e > 0 && g.r.chance(25) {
+				if (e > 0 || i%5 == 1) && g.r.chance(25) || i%10 == 1 && e == 0 {
 					// crash inside the recovering Open itself
 					g.do("kill")
 					g.isOpen = false
 					before, after = copyMap(g.ref), copyMap(g.ref)
 					g.open()
 					g.c.tag("crash_inside_recovery")
+				} else if i%10 == 6 && e == 0 {
+					// crash inside a clean Open
+					g.close()
+					before, after = copyMap(g.ref), copyMap(g.ref)
+					g.open()
+					g.c.tag("crash_inside_clean_open")
 				} else {
 					before, after = g.mutate()
 				}
